@@ -21,6 +21,7 @@ EXPLANATION = (
     " (CHILD-SPAN) a child checked against its own positional or named expectation (argument i against parameter i, a blob field value against the field of that name) is blamed at the child's span."
     ' (DUP-ORDER) the loops that register names and report the one found taken run in source order, so the reported definition is the later one.'
     ' (VISIT-dep, shared with C11) a mismatch between literal arguments and parameters is found at the call because the callee is checked first.'
+    ' (LINE read_file) the source text is tokenised with a line feed exactly where the file has one.'
 )
 UNDECIDED = "that each error's span is the *most helpful* one (which child's span is chosen is a matter of taste); column exactness of rendered underlines."
 
